@@ -281,22 +281,34 @@ def battery():
             s.str.contains("ab").len(4), s.str, s.int, s.int.min(3), s.float.min(0.25).precision(2), s.bool, s.bytes,
             s.list(s.int).len(2), s.list([s.int(1), ...]).len(3), s.dict({"a": s.int, d42.optional("b"): s.str}),
             s.any(s.int, s.str("x")), s.alias("T", s.int.max(5))]
+    untouched = True
     for g in gens:
+        before = (repr(g), repr(g.props))
         for tape in (["lo"], ["hi"], ["lo1", "hi1"]):
             def run(g=g, tape=tape):
                 with faketape.installed(tape):
                     return d42.fake(g)
             rec(run)
         rec(lambda g=g: repr(g))
+        untouched = untouched and (repr(g), repr(g.props)) == before        # generating is an observer
     user = s.dict({"id": s.int.min(1), "name": s.str.len(1, 5), "tags": s.list(s.str), "x": s.any(s.int, s.none)})
     bad_user = {"id": 0, "name": "", "tags": [1, 2], "x": "q", "extra": 1}
     pair = s.list([s.int, s.str])
+    import collections
+    import copy
+    dd = collections.defaultdict(int, {"id": 3})
+    od = collections.OrderedDict([("tags", []), ("id", 1)])
     for sch, val in ((user, bad_user), (pair, ["a", 1, 2]), (s.any(user, pair), bad_user), (s.list(user), [bad_user, {}]),
-                     (s.float(1.0), True), (s.bool(True), 1.0), (s.int(1), 1.0)):
+                     (s.float(1.0), True), (s.bool(True), 1.0), (s.int(1), 1.0), (user, dd), (s.list(user), [dd, od]),
+                     (s.dict({"k": s.dict({d42.optional("z"): s.int, "y": s.int})}), {"k": collections.defaultdict(list)})):
+        val_before = (copy.deepcopy(val), repr(val))
+        sch_before = repr(sch)
         rec(lambda sch=sch, val=val: [type(e).__name__ for e in d42.validate(sch, val).get_errors()])
         rec(lambda sch=sch, val=val: d42.validate_or_fail(sch, val))
         rec(lambda sch=sch, val=val: sch == val)
         rec(lambda sch=sch, val=val: d42.substitute(sch, val))
+        # neither the value nor the schema may look different after having been validated / substituted
+        untouched = untouched and (val, repr(val)) == val_before and repr(sch) == sch_before
     for v in (True, 1, 1.0, False, 0, 0.0, "", b"", [True, 1.0], {"k": 1.0, "j": True}):
         rec(lambda v=v: from_native(v))
     rec(lambda: make_required(user, ["id"]))
@@ -329,7 +341,7 @@ def battery():
             if (look(a), look(b)) != before:
                 pure = False
     out.append("operands unchanged: %s" % pure)
-    PURE[0] = PURE[0] and pure
+    PURE[0] = PURE[0] and pure and untouched
     return tuple(out)
 
 
